@@ -25,6 +25,7 @@ def run(rep, tier):
     common.guarded(rep, "C04.1", c04_1, rep, ix)
     common.guarded(rep, "C04.2", c04_2, rep, ix)
     sites = common.guarded(rep, "C04.3", c04_3, rep, ix)
+    common.guarded(rep, "C04.7", c04_7, rep, ix)
     if sites:
         common.guarded(rep, "C04.4", c04_4, rep, ix, sites)
     common.guarded(rep, "C04.5", c04_5, rep, ix, M.G)
@@ -137,6 +138,75 @@ def c04_3(rep, ix):
     return info
 
 
+def c04_7(rep, ix):
+    R = "C04.7"
+    rep.rule(R, "a two-dimensional value given for a whole-array parameter <p> is spread over the element parameters <p>_<i>_<j> with i the row and j the column of the element", floor=1)
+    f = ix.func(CALL)
+    fn = f.node
+    from ..py.guards import resolved_text, stmt_of
+    loops = [l for l in walk_shallow(fn) if isinstance(l, ast.For) and " ".join(u(l.iter).split()) == "kwargs.items()" and isinstance(l.target, ast.Tuple) and len(l.target.elts) == 2]
+    if len(loops) != 1:
+        raise Inconclusive("__call__: loop over the passed values not recognised")
+    l = loops[0]
+    k, v = u(l.target.elts[0]), u(l.target.elts[1])
+
+    def name_template(e, at):
+        parts = nrm.fmt_parts(ast.parse(resolved_text(fn, e, at), mode="eval").body) or []
+        if len(parts) == 5 and [p_[0] for p_ in parts] == ["expr", "lit", "expr", "lit", "expr"] and parts[1][1] == "_" and parts[3][1] == "_" and u(parts[0][1]) == k \
+                and isinstance(parts[2][1], ast.Name) and isinstance(parts[4][1], ast.Name):
+            return parts[2][1].id, parts[4][1].id
+        return None
+
+    def source(e):
+        """what an expression denoting the array value is: the loop's value or a local array form of it"""
+        t = resolved_text(fn, e, l.body[0]) if not isinstance(e, str) else e
+        return t in (v, "np.asarray(%s)" % v, "np.array(%s)" % v, "np.asanyarray(%s)" % v)
+
+    verdict, where, why = None, l, ""
+    for n in ast.walk(l):
+        if isinstance(n, ast.DictComp):
+            nt = name_template(n.key, stmt_of(fn, n) or l)
+            if nt is None:
+                continue
+            where = n
+            gens = n.generators
+            if len(gens) == 2 and all(isinstance(g.iter, ast.Call) and u(g.iter.func) == "enumerate" and isinstance(g.target, ast.Tuple) and len(g.target.elts) == 2 for g in gens):
+                i_, row = u(gens[0].target.elts[0]), u(gens[0].target.elts[1])
+                j_, val = u(gens[1].target.elts[0]), u(gens[1].target.elts[1])
+                ok = source(gens[0].iter.args[0]) and u(gens[1].iter.args[0]) == row and nt == (i_, j_) and u(n.value) == val
+                verdict, why = ok, "key %s over rows `%s`, columns `%s`, value `%s`" % (nt, u(gens[0].iter), u(gens[1].iter), u(n.value))
+            elif len(gens) == 1 and isinstance(gens[0].iter, ast.Call) and u(gens[0].iter.func) in ("np.ndindex", "numpy.ndindex") and isinstance(gens[0].target, ast.Tuple) and len(gens[0].target.elts) == 2:
+                i_, j_ = u(gens[0].target.elts[0]), u(gens[0].target.elts[1])
+                val = " ".join(u(n.value).split())
+                base = val.split("[")[0]
+                ok = nt == (i_, j_) and val in ("%s[%s][%s]" % (base, i_, j_), "%s[%s, %s]" % (base, i_, j_)) and source(base)
+                verdict, why = ok, "key %s, value `%s`" % (nt, val)
+            elif len(gens) == 1 and isinstance(gens[0].iter, ast.Call) and u(gens[0].iter.func) in ("np.ndenumerate", "numpy.ndenumerate") and isinstance(gens[0].target, ast.Tuple) \
+                    and len(gens[0].target.elts) == 2 and isinstance(gens[0].target.elts[0], ast.Tuple) and len(gens[0].target.elts[0].elts) == 2:
+                i_, j_ = [u(x) for x in gens[0].target.elts[0].elts]
+                ok = nt == (i_, j_) and u(n.value) == u(gens[0].target.elts[1]) and source(gens[0].iter.args[0])
+                verdict, why = ok, "key %s over ndenumerate" % (nt,)
+    if verdict is None:
+        # names and elements produced separately and paired by position
+        for n in ast.walk(l):
+            if isinstance(n, ast.Call) and u(n.func) == "zip" and len(n.args) == 2:
+                from .c07 import resolve
+                names, elems = resolve(fn, n.args[0]), resolve(fn, n.args[1])
+                if isinstance(names, (ast.GeneratorExp, ast.ListComp)) and len(names.generators) == 1 and isinstance(names.generators[0].iter, ast.Call) \
+                        and u(names.generators[0].iter.func) in ("np.ndindex", "numpy.ndindex") and isinstance(names.generators[0].target, ast.Tuple):
+                    nt = name_template(names.elt, stmt_of(fn, n) or l)
+                    tgt = tuple(u(x) for x in names.generators[0].target.elts)
+                    et = " ".join(u(elems).split())
+                    where = n
+                    if "nditer" in et and "order='C'" not in et and 'order="C"' not in et:
+                        verdict, why = False, "the elements come from `%s`, which walks the array in memory order: for a transposed / Fortran-ordered value they are paired with the wrong indices" % et[:70]
+                    elif nt == tgt and any(x in et for x in (".flat", ".ravel()", ".flatten()", ".reshape(-1)")) and "order=" not in et:
+                        verdict, why = True, "row-major indices paired with the row-major flattening"
+    if verdict is None:
+        raise Inconclusive("__call__: expansion of an array value into element parameters not recognised")
+    rep.check(verdict, R, ix.site(f, where), "element parameter <p>_<i>_<j> receives element (i, j) of the value passed for <p>", why, key="array value")
+
+
 def c04_4(rep, ix, sites):
     R = "C04.4"
     rep.rule(R, "all substitution sites (positional, keyword, scalar variable, array element) use the same bind-by-name idiom: par = list(X.free_symbols); func = lambdify(par, X); "
@@ -205,6 +275,15 @@ def c04_4(rep, ix, sites):
         r = root_name(st.targets[0])
         ok = r == prog
         why = ""
+        # ... but not through a property that hands out a fresh copy (`prog.variables[k] = ...` writes into a throw-away dict)
+        x_ = st.targets[0]
+        while isinstance(x_, (ast.Attribute, ast.Subscript)):
+            if isinstance(x_, ast.Attribute) and x_.attr in E.props:
+                ret = E.summ[E.props[x_.attr].qual].ret
+                if ret is not None and ret.self_o == frozenset([FRESH]):
+                    ok = False
+                    why = "`%s` goes through the property `%s`, which returns a fresh copy: the substituted value is written into a throw-away object" % (" ".join(u(st.targets[0]).split())[:50], x_.attr)
+            x_ = x_.value
         if not ok and r is not None:
             # an alias: a loop variable over, or an attribute chain of, the returned program - but not the result of a getter that returns a copy
             binders = [n for n in ast.walk(fn) if (isinstance(n, ast.For) and any(isinstance(x, ast.Name) and x.id == r for x in ast.walk(n.target)) and root_name(n.iter if not isinstance(n.iter, ast.Call) else n.iter.func) == prog)
